@@ -121,6 +121,8 @@ func checkC02(c *Ctx) {
 			c7Appends(c, "R2.19", fn)
 		}
 	}
+	c.Rule("R2.21", "slog handlers: attributes land under exactly the groups open at that point (pending-group protocol of WithAttrs and Handle): a lost or repeated group puts the decoded values at the wrong nesting", 2)
+	c18EmitProtocol(c, "R2.21")
 	c.Rule("R2.20", "nothing is appended into spare capacity of, or written over, a slice handed in or held by a parent (a field list re-used at a later call site, or a sibling's context, would be emitted with other fields than were added)", 1)
 	c7AppendsAll(c, "R2.20")
 	c.Rule("R2.14", "short caller representation: everything after the penultimate '/', the whole path with fewer than two separators", 1)
